@@ -3,7 +3,7 @@
 (* AlleleRules.tla.  One event per generated VCF (see harness/drive_alleles.py):                 *)
 (*   sites[i] = [c, p, ref, alts, gt]       the abstract VCF (p is 0-based)                       *)
 (*   hists[h].runs[r] = [lazy, cache, phased, sel: [explicit, s], ign, raised, ops]               *)
-(*   ops[o] = [op: "get"|"has", c, p, b, ans, raised]                                             *)
+(*   ops[o] = [op: "get"|"has"|"read", c, p, b, ans, raised] (+ seq: <<base,..>> for "read")       *)
 (* Every expected answer is recomputed here from `sites` and the run's configuration; nothing    *)
 (* computed by Python is trusted.  Clauses:                                                      *)
 (*   Inv_C18_Truth   an answer is not the one the VCF dictates (for this run's configuration)    *)
@@ -22,8 +22,23 @@ SiteIdx(e, c, p) == { i \in DOMAIN e.sites : e.sites[i].c = c /\ e.sites[i].p = 
 HasSite(e, o) == SiteIdx(e, o.c, o.p) # {}
 SiteOf(e, o) == e.sites[CHOOSE i \in SiteIdx(e, o.c, o.p) : TRUE]
 
+(* getAllele(reads) (alternative entry path): one read aligned without gaps from o.p with bases o.seq; the result is the *)
+(* union of the answers at the covered positions that consist of exactly one allele.  A read touching an "either" site *)
+(* is not judged.                                                                                                      *)
+ClassAt(e, r, c, p) == IF SiteIdx(e, c, p) = {} THEN "none"
+                       ELSE LET site == e.sites[CHOOSE i \in SiteIdx(e, c, p) : TRUE] IN
+                            IF r.phased THEN Class(site, CfgOf(r).sel, CfgOf(r).ign) ELSE UClass(site, CfgOf(r).ign)
+TruthAt(e, r, c, p, b) == IF ClassAt(e, r, c, p) # "store" THEN {}
+                          ELSE LET site == e.sites[CHOOSE i \in SiteIdx(e, c, p) : TRUE] IN
+                               IF r.phased THEN Carriers(site, CfgOf(r).sel, b) ELSE ULetters(site, b)
+ReadOK(e, r, o) ==
+    \/ \E k \in DOMAIN o.seq : ClassAt(e, r, o.c, o.p + k - 1) = "either"
+    \/ SeqSet(o.ans) = UNION { (IF Cardinality(TruthAt(e, r, o.c, o.p + k - 1, o.seq[k])) = 1
+                                THEN TruthAt(e, r, o.c, o.p + k - 1, o.seq[k]) ELSE {}) : k \in DOMAIN o.seq }
+
 OpOK(e, r, o) ==
-    IF ~HasSite(e, o) THEN (IF o.op = "get" THEN o.ans = <<>> ELSE o.ans = FALSE)
+    IF o.op = "read" THEN ReadOK(e, r, o)
+    ELSE IF ~HasSite(e, o) THEN (IF o.op = "get" THEN o.ans = <<>> ELSE o.ans = FALSE)
     ELSE IF r.phased THEN (IF o.op = "get" THEN AnswerOK(SiteOf(e, o), CfgOf(r).sel, CfgOf(r).ign, o.b, SeqSet(o.ans))
                            ELSE HasLocOK(SiteOf(e, o), CfgOf(r).sel, CfgOf(r).ign, o.ans))
     ELSE (IF o.op = "get" THEN UAnswerOK(SiteOf(e, o), CfgOf(r).ign, o.b, SeqSet(o.ans))
@@ -47,7 +62,7 @@ FirstBad(e, hh, Bad(_, _, _)) ==
 Where(t) == "|h=" \o ToString(t[1]) \o "|r=" \o ToString(t[2]) \o "|o=" \o ToString(t[3])
 
 (* answers on "either" sites, keyed by configuration and query *)
-EitherOps(e) == { t \in AllOps(e) : /\ Judged(Run(e, t)) /\ HasSite(e, Op(e, t))
+EitherOps(e) == { t \in AllOps(e) : /\ Judged(Run(e, t)) /\ Op(e, t).op # "read" /\ HasSite(e, Op(e, t))
                                     /\ (IF Run(e, t).phased
                                         THEN Class(SiteOf(e, Op(e, t)), CfgOf(Run(e, t)).sel, CfgOf(Run(e, t)).ign)
                                         ELSE UClass(SiteOf(e, Op(e, t)), CfgOf(Run(e, t)).ign)) = "either" }
